@@ -295,8 +295,8 @@ func genCfConfig(g *Rng) config.Config {
 			c.CircuitBreaker = config.CircuitBreakerConfig{Enabled: g.Chance(85), MaxRequests: ints(-1, 0, 1, 2, 5), IntervalSeconds: ints(-1, 0, 1, 60), TimeoutSeconds: ints(-1, 0, 1, 30),
 				FailureThreshold: ints(-1, 0, 1, 5), SuccessThreshold: ints(-1, 0, 1, 2, 3, 5, 6)}
 		case 9:
-			c.Metrics = config.MetricsConfig{Enabled: g.Chance(80), Port: ints(-1, 0, 1, 9090, 65535, 65536), Path: []string{"", "/metrics"}[g.Intn(2)]}
-			c.AdminAPI = config.AdminAPIConfig{Enabled: g.Chance(60), Port: ints(-1, 0, 1, 9091, 65535, 65536), AuthToken: []string{"", "tok"}[g.Intn(2)]}
+			c.Metrics = config.MetricsConfig{Enabled: g.Chance(80), Port: ints(-1, 0, 1, 9090, 65535, 65536, 8080), Path: []string{"", "/metrics"}[g.Intn(2)]}
+			c.AdminAPI = config.AdminAPIConfig{Enabled: g.Chance(60), Port: ints(-1, 0, 1, 9091, 65535, 65536, 9090, 8080), AuthToken: []string{"", "tok"}[g.Intn(2)]}
 		default:
 			c.Logging.Level = []string{"", "debug", "info", "warn", "error", "fatal", "trace", "INFO", "warning"}[g.Intn(9)]
 			c.Logging.Format = []string{"", "text", "json", "console", "pretty", "JSON", "logfmt"}[g.Intn(7)]
@@ -430,6 +430,17 @@ func TestConfig(t *testing.T) {
 	} {
 		cfg := baseConfig()
 		cfg.Backends = bs
+		y, _ := yaml.Marshal(cfg)
+		emit("corpus", CfCase{Kind: "struct", YAML: string(y), Proc: true})
+	}
+	// sections that are switched off may carry any port, also one another listener uses
+	for _, f := range []func(c *config.Config){
+		func(c *config.Config) { c.Metrics = config.MetricsConfig{Enabled: false, Port: 9090, Path: "/metrics"}; c.AdminAPI = config.AdminAPIConfig{Enabled: true, Port: 9090} },
+		func(c *config.Config) { c.Metrics = config.MetricsConfig{Enabled: true, Port: 9091, Path: "/metrics"}; c.AdminAPI = config.AdminAPIConfig{Enabled: false, Port: 9091} },
+		func(c *config.Config) { c.Metrics = config.MetricsConfig{Enabled: false, Port: 8080}; c.AdminAPI = config.AdminAPIConfig{Enabled: false, Port: 8080} },
+	} {
+		cfg := baseConfig()
+		f(&cfg)
 		y, _ := yaml.Marshal(cfg)
 		emit("corpus", CfCase{Kind: "struct", YAML: string(y), Proc: true})
 	}
